@@ -247,7 +247,15 @@ func mergeStringMaps(src, dest map[string]any) {
 			}
 			continue
 		}
-		// Otherwise, set the value directly
+		// Otherwise, set the value directly. A nested map is copied so that
+		// later merges into dest can't write through to src (and from there
+		// to every other config that inherited from it).
+		if srcMap, ok := srcValue.(map[string]any); ok {
+			destMap := make(map[string]any, len(srcMap))
+			mergeStringMaps(srcMap, destMap)
+			dest[srcKey] = destMap
+			continue
+		}
 		dest[srcKey] = srcValue
 	}
 }
